@@ -498,9 +498,10 @@ class World:
         """Index of the first occurrence of the delimiter in T at or after x (x >= 0), or -1."""
         if self.v.concrete:
             return self.T.find(self.delim, x)
-        key = str(z3.simplify(_i(x)))
+        xt = z3.simplify(_i(x))
+        key = xt.get_id()  # hash-consed term identity (the term is kept alive in the memo)
         if key in self.memo:
-            return self.memo[key]
+            return self.memo[key][1]
         ctx = self.v.ctx
         j = mk_int(self.F(_i(x)))
         ctx.assume(Or(j == -1, And(j >= x, j + self.dl <= self.lenT)))
@@ -508,7 +509,7 @@ class World:
             ctx.assume(Implies(And(x <= y, Or(j == -1, y <= j)), jy == j))
             ctx.assume(Implies(And(y <= x, Or(jy == -1, x <= jy)), j == jy))
         self.points.append((x, j))
-        self.memo[key] = j
+        self.memo[key] = (xt, j)
         return j
 
     def is_delim_at(self, p, n):
